@@ -30,6 +30,10 @@ def _counting_popitem(self):
 TrajectoryCache.popitem = _counting_popitem
 
 
+class _UserError(Exception):
+    pass
+
+
 class Mismatch(Exception):
     def __init__(self, mechanism: str, detail):
         super().__init__(mechanism)
@@ -118,14 +122,29 @@ class StoreHistory:
         self.log.append(('open', kind))
         self.rec.count(f'session_{kind}')
 
-    def close(self):
+    def close(self, how: str | None = None):
+        """how: 'close' | 'with' (block ends normally) | 'with-exception' (the block is left
+        by an exception of the user's code; the store must be closed just the same)"""
         if self.store is not None:
-            self.log.append(('close',))
+            if how is None:
+                how = self.rng.choice(['close', 'close', 'with', 'with-exception'])
+            self.log.append(('close', how))
             try:
-                self.store.close()
+                if how == 'close':
+                    self.store.close()
+                elif how == 'with':
+                    with self.store:
+                        pass
+                else:
+                    try:
+                        with self.store:
+                            raise _UserError('error in the user\'s block')
+                    except _UserError:
+                        pass
+                self.rec.cls(f'close-via:{how}')
             except Exception as e:  # noqa: BLE001
                 self.store = None
-                self._fail('close() raised', error=f'{type(e).__name__}: {e}')
+                self._fail('close() raised', error=f'{type(e).__name__}: {e}', how=how)
             self.store = None
             self.file_exists = self.path.exists()
             self.session = 'none'
@@ -165,6 +184,58 @@ class StoreHistory:
             self.ids[snap['flight_id']] = expected
         self.rec.cls(f'add:{self.session}')
         self.check_len()
+
+    def op_add_oversize(self):
+        """A trajectory larger than the whole cache: whatever the store answers (HEAD refuses
+        with ValueError), a refusal must leave everything as it was and an acceptance must
+        behave like any addition."""
+        if self.cache_items is None:
+            return
+        self.uid += 1
+        fid = None
+        if self.identified:
+            fid = max(self.used_ids | {1000}) + 1
+        t = trajgen.make_base_traj(self.np_rng, self.fixed_np * (self.cache_items + 2) * 2,
+                                   self.uid, flight_id=fid)
+        snap = trajgen.snapshot(t)
+        expected = len(self.model)
+        self.log.append(('add-oversize', trajgen.fingerprint(snap), fid))
+        try:
+            idx = self.store.add(t)
+        except Exception as e:  # noqa: BLE001
+            self.rec.ev()
+            self.rec.cls(f'add:larger-than-cache:refused:{type(e).__name__}')
+            self.rec.count('oversize_refusals')
+            self.check_len()
+            self.check_all_reads(sample=3)
+            if self.identified:
+                self.op_lookup(True)
+            return
+        self.rec.ev()
+        if idx != expected:
+            self._fail('add returned wrong index', returned=idx, expected=expected)
+        self.model.append(snap)
+        if self.identified:
+            self.used_ids.add(fid)
+            self.ids[fid] = expected
+        self.rec.cls('add:larger-than-cache:accepted')
+        self.check_len()
+
+    def op_save_rejected(self):
+        """save() of an in-memory store onto a path that already exists is refused; the store
+        stays an in-memory store (still refusing additions that would evict)."""
+        occupied = self.dir / f'occupied{self.rng.getrandbits(30):x}.nc'
+        occupied.write_bytes(b'already here')
+        self.log.append(('save-onto-existing-file',))
+        try:
+            self.store.save(occupied)
+        except Exception as e:  # noqa: BLE001
+            self.rec.cls(f'save:onto-existing-file:refused:{type(e).__name__}')
+            self.check_len()
+            self.check_all_reads(sample=3)
+            occupied.unlink(missing_ok=True)
+            return
+        self._fail('save() onto an existing file was accepted')
 
     def check_len(self):
         n = len(self.store)
